@@ -24,6 +24,7 @@ def dispatch (line : String) : String :=
   | "c10" :: rest => Driver.Dec.handleC10 rest out
   | "c18" :: rest => Driver.Dec.handleC18 rest out
   | "c03" :: rest => Driver.Dec.handleC03 rest out
+  | "c04" :: "fs" :: ty :: calls => Driver.C04F.handleC04FS ty calls out
   | "c04" :: "f" :: ty :: m :: [] => Driver.C04F.handleC04F ty m out
   | "c04" :: rest => Driver.C04.handleC04 rest out
   | "c05" :: "lf" :: ty :: calls => Driver.C04F.handleC05LF ty calls out
